@@ -239,7 +239,8 @@ type c01Worker struct {
 	dep   int // deployment number of the last Deploy request this worker's operator completed
 	// number of Deploy requests this worker's operator has completed: more than one = the process was alive
 	// when it was deployed again
-	deploys int
+	deploys   int
+	srDeploys int // the same for the worker's source runner
 }
 
 type c01World struct {
@@ -268,6 +269,17 @@ type c01World struct {
 	jobRestart bool
 	failDeploy int // >0: the failDeploy-th Deploy call from now fails
 	pauseReads bool
+	// deploy gate: operator Deploy requests park after the operator has loaded its state, until released
+	deployGate   bool
+	deployParked int
+	deployGo     chan struct{}
+	// a publication that completes while a deployment is in progress is logged after the deployment's R token:
+	// the deployment chose its checkpoint (job.start reads CurrentCheckpoint once, up front) before it
+	deferPub []string
+	// per deployment: last index of each split handled by each operator (channels are FIFO)
+	lastIdx   map[[2]int]int
+	reordered string
+	full      []string // every event of the case, for the corpus when a reordering is seen
 
 	acks     []*c01Ack
 	writes   []*c01Write
@@ -277,7 +289,11 @@ type c01World struct {
 	runningC chan struct{}
 }
 
-func (w *c01World) log(format string, a ...any) { w.ev = append(w.ev, fmt.Sprintf(format, a...)) }
+func (w *c01World) log(format string, a ...any) {
+	t := fmt.Sprintf(format, a...)
+	w.ev = append(w.ev, t)
+	w.full = append(w.full, t)
+}
 
 func (w *c01World) take() string {
 	w.mu.Lock()
@@ -380,11 +396,19 @@ func (s *c01Splitter) Start(ckpt *snapshotpb.SourceCheckpoint) error {
 	}
 	tag := "R"
 	for _, id := range s.ids {
-		if wk := w.byID[id]; wk != nil && wk.deploys > 1 {
+		if wk := w.byID[id]; wk != nil && (wk.deploys > 1 || wk.srDeploys > 1) {
 			tag = "L" // the assembly contains a node process that had been deployed before (finding D39)
+			if wk.deploys <= 1 {
+				w.notes["source runner deployed twice, its operator once"]++
+			}
 		}
 	}
 	w.log("%s:%d:%s:%s:%s", tag, len(s.ids), ck, strings.Join(cs, "."), kind)
+	for _, t := range w.deferPub {
+		w.log("%s", t)
+	}
+	w.deferPub = nil
+	w.lastIdx = map[[2]int]int{}
 	n := len(s.ids)
 	as := map[string][]*workerpb.SourceSplit{}
 	for sp := 0; sp < w.cfg.nsplits; sp++ {
@@ -533,6 +557,15 @@ func (h *c01Handler) ProcessEventBatch(ctx context.Context, req *handlerpb.Proce
 		} else {
 			w.log("%s", tok)
 			w.delivDep++
+			sp, _ := strconv.Atoi(parts[0])
+			idx, _ := strconv.Atoi(parts[1])
+			k := [2]int{h.wk.opIdx, sp}
+			if last, ok := w.lastIdx[k]; ok && idx < last && w.reordered == "" {
+				w.reordered = tok
+			}
+			if last, ok := w.lastIdx[k]; !ok || idx > last {
+				w.lastIdx[k] = idx
+			}
 		}
 		pos := make([]byte, 4)
 		binary.BigEndian.PutUint32(pos, uint32(len(states[key])))
@@ -797,7 +830,19 @@ func (o *c01OpClient) Deploy(ctx context.Context, req *workerpb.DeployOperatorRe
 		}
 		w.deployCk = ck
 	}
+	var wait chan struct{}
+	if err == nil && w.deployGate {
+		w.deployParked++
+		wait = w.deployGo
+	}
 	w.mu.Unlock()
+	if wait != nil {
+		select {
+		case <-wait:
+		case <-w.closing:
+		case <-time.After(4 * c01Grace):
+		}
+	}
 	return err
 }
 func (o *c01OpClient) UpdateRetainedCheckpoints(ctx context.Context, ids []uint64) (err error) {
@@ -834,7 +879,13 @@ func (s *c01SrClient) Deploy(ctx context.Context, req *workerpb.DeploySourceRunn
 	if s.target.killed.Load() {
 		return errC01Unreachable
 	}
-	return s.target.w.SourceRunner.HandleDeploy(ctx, req)
+	err := s.target.w.SourceRunner.HandleDeploy(ctx, req)
+	if err == nil {
+		s.w.mu.Lock()
+		s.target.srDeploys++
+		s.w.mu.Unlock()
+	}
+	return err
 }
 func (s *c01SrClient) AssignSplits(ctx context.Context, splits []*workerpb.SourceSplit) error {
 	if s.target.killed.Load() {
@@ -1037,7 +1088,7 @@ func newC01World(n, kgc, nsplits, batch, readBatch, nkeys, rot int) (*c01World, 
 	if err != nil {
 		return nil, err
 	}
-	w := &c01World{dir: dir, byID: map[string]*c01Worker{}, tickSeen: map[uint64]bool{}, notes: map[string]int{},
+	w := &c01World{dir: dir, byID: map[string]*c01Worker{}, tickSeen: map[uint64]bool{}, notes: map[string]int{}, lastIdx: map[[2]int]int{},
 		closing: make(chan struct{}), errCh: make(chan error, 64)}
 	w.cfg.kgc, w.cfg.nsplits, w.cfg.batch, w.cfg.readBatch, w.cfg.nkeys, w.cfg.rot = kgc, nsplits, batch, readBatch, nkeys, rot
 	w.splits = make([][]int, nsplits)
